@@ -17,6 +17,11 @@ static const ld TAU_ADJ = std::getenv("VERIF_DEBUG_TAU_ADJ") ? (ld)std::atof(std
 
 // absolute floor (relative to the natural magnitude of an entry of that kind) for components that vanish by exact cancellation
 // (structural zeros: symmetry, prescribed coefficients): >= 300x the rounding noise measured there on the pinned tree
+// per-order tolerances from the worst errors measured on the pinned tree (thorough tier, 1e6 cases, in units of sigma):
+//   propagateGrad with generic upstream gradients   1.0e-12 / 3.1e-10 / 2.7e-9  (cubic / quintic / septic)
+//   energy gradients (direct and propagated partials) 2.7e-15 / 9.8e-14 / 1.1e-12
+inline ld tau_adj(int S) { return S == 2 ? std::min<ld>(TAU_ADJ, 1e-9L) : TAU_ADJ; }
+inline ld tau_egrad(int S) { return std::min<ld>(TAU_ADJ, S == 2 ? 1e-11L : (S == 3 ? 1e-10L : 1e-9L)); }
 inline ld tau_zero(int S) { return S == 2 ? 1e-12L : (S == 3 ? 1e-11L : 1e-10L); }
 
 // library Gradients -> (theta: [P_0..P_N, start derivs 1..s-1, end derivs 1..s-1] x D, times)
@@ -196,7 +201,7 @@ void c05_case(Tape& t, Ctx& ctx) {
     for (int i = 0; i < N; ++i) gTl(i) = gT(i);
     RefSpline::Adjoint ra = ref.adjoint(gCl, gTl);
     std::string what = std::string(SplineOf<D, S>::name()) + " dim=" + std::to_string(D) + " propagateGrad(upstream " + gname + ", durations " + c.dur_shape + " ratio " + g6(c.ratio) + ")";
-    if (!compare_with_ref<S>(ctx, g1, ra, N, TAU_ADJ, what, "adjoint-mismatch", (std::string("adjoint_err_") + SplineOf<D, S>::name()).c_str())) return;
+    if (!compare_with_ref<S>(ctx, g1, ra, N, tau_adj(S), what, "adjoint-mismatch", (std::string("adjoint_err_") + SplineOf<D, S>::name()).c_str())) return;
     // linearity: exact for power-of-two factors
     {
       int k = t.sym(8);
@@ -321,12 +326,12 @@ void c06_case(Tape& t, Ctx& ctx) {
   }
   // the adjoint's sigma for the energy: use abs values of the partials (cancellation-aware)
   std::string what = who + " getEnergyGrad (durations " + c.dur_shape + " ratio " + g6(c.ratio) + ")";
-  if (!compare_with_ref<S>(ctx, ge, total, N, TAU_ADJ, what, "energy-gradient", (std::string("energy_grad_err_") + SplineOf<D, S>::name()).c_str())) return;
+  if (!compare_with_ref<S>(ctx, ge, total, N, tau_egrad(S), what, "energy-gradient", (std::string("energy_grad_err_") + SplineOf<D, S>::name()).c_str())) return;
   // ---- (iv) propagating the partials reproduces the analytic gradients
   {
     Grads gp = sp.propagateGrad(pC, pT);
     std::string w2 = who + " propagateGrad(energy partials)";
-    if (!compare_with_ref<S>(ctx, gp, total, N, TAU_ADJ, w2, "propagated-partials", (std::string("propagated_partials_err_") + SplineOf<D, S>::name()).c_str())) return;
+    if (!compare_with_ref<S>(ctx, gp, total, N, tau_egrad(S), w2, "propagated-partials", (std::string("propagated_partials_err_") + SplineOf<D, S>::name()).c_str())) return;
   }
   // ---- (iii) literally: finite differences of the REPORTED energy (R5)
   if (with_fd) {
